@@ -25,6 +25,22 @@ struct Exchange {
 
 /// the three-message exchange driven directly; Err(outcome) on any failure
 fn exchange(ctx_rc: &crate::harness::SharedCtx, prefix: &str) -> Result<Exchange, Outcome> {
+    // an application may keep its authentication object and go through several handshakes with it
+    let rounds = if ctx_rc.borrow_mut().chance("second_handshake_same_object", 1, 4) { 2 } else { 1 };
+    let mut carried: Option<(Ntlm, ClientCfg, bool)> = None;
+    let mut last = None;
+    for round in 0..rounds {
+        if round == 1 { ctx_rc.borrow_mut().probe("second_handshake_on_same_object"); }
+        let ex = exchange_once(ctx_rc, prefix, carried.take())?;
+        carried = Some((ex.0, ex.2.clone(), ex.3));
+        last = Some(ex.1);
+    }
+    let (client, _, _) = carried.unwrap();
+    Ok(Exchange { client, verified: last.unwrap() })
+}
+
+/// one NEGOTIATE / CHALLENGE / AUTHENTICATE exchange; `reuse` = the client object (and its account) of a previous one
+fn exchange_once(ctx_rc: &crate::harness::SharedCtx, prefix: &str, reuse: Option<(Ntlm, ClientCfg, bool)>) -> Result<(Ntlm, ntlm::Verified, ClientCfg, bool), Outcome> {
     let (cfg, nla, oem, use_hash) = {
         let mut ctx = ctx_rc.borrow_mut();
         let mut cfg = ClientCfg::plain();
@@ -32,7 +48,13 @@ fn exchange(ctx_rc: &crate::harness::SharedCtx, prefix: &str) -> Result<Exchange
         cfg.domain = gen_string(&mut ctx, "domain", 40, !oem);
         cfg.user = simple_upper(&gen_string(&mut ctx, "user", 64, !oem));
         cfg.password = gen_string(&mut ctx, "password", 64, true);
-        let use_hash = ctx.chance("use_hash", 1, 3);
+        let mut use_hash = ctx.chance("use_hash", 1, 3);
+        if let Some((_, c, h)) = &reuse {
+            cfg = c.clone();
+            use_hash = *h;
+        }
+        // OEM strings are only defined for ASCII here
+        let oem = oem && cfg.domain.is_ascii() && cfg.user.is_ascii();
         seed_client_randomness(&mut ctx);
         let nla = make_nla(&mut ctx, &cfg);
         ctx.key_add(oem as u64 | (use_hash as u64) << 1 | (nla.challenge_cfg.with_version as u64) << 2 | (nla.challenge_cfg.target_info_first as u64) << 3);
@@ -43,8 +65,12 @@ fn exchange(ctx_rc: &crate::harness::SharedCtx, prefix: &str) -> Result<Exchange
     };
     let nt = ntlm::nt_hash(&cfg.password);
     let cfg2 = cfg.clone();
+    let reused = reuse.map(|r| r.0);
     let r = guard(move || {
-        let mut client = if use_hash { Ntlm::from_hash(cfg2.domain.clone(), cfg2.user.clone(), &nt) } else { Ntlm::new(cfg2.domain.clone(), cfg2.user.clone(), cfg2.password.clone()) };
+        let mut client = match reused {
+            Some(c) => c,
+            None => if use_hash { Ntlm::from_hash(cfg2.domain.clone(), cfg2.user.clone(), &nt) } else { Ntlm::new(cfg2.domain.clone(), cfg2.user.clone(), cfg2.password.clone()) },
+        };
         let neg = client.create_negotiate_message();
         (client, neg)
     });
@@ -84,7 +110,7 @@ fn exchange(ctx_rc: &crate::harness::SharedCtx, prefix: &str) -> Result<Exchange
             if v.user != cfg.user || v.domain != cfg.domain {
                 return Err(viol(&format!("{}/identity", prefix), "user-or-domain", format!("token names {:?}\\{:?}, configured {:?}\\{:?}", v.domain, v.user, cfg.domain, cfg.user)));
             }
-            Ok(Exchange { client, verified: v })
+            Ok((client, v, cfg, use_hash))
         }
         Err(e) => Err(viol(&format!("{}/verifier-rejects", prefix), e.split(':').next().unwrap_or("?"), format!("independent MS-NLMP verification failed: {} (hash mode {}, oem {}, version {}, target info first {})", e, use_hash, oem, nla.challenge_cfg.with_version, nla.challenge_cfg.target_info_first))),
     }
@@ -264,7 +290,10 @@ pub fn run_c17(env: &mut Env) -> Outcome {
     };
     env.cover.push(("mode_combination", (cfg.nla as u64) | (cfg.restricted as u64) << 1 | (cfg.blank as u64) << 2 | (cfg.auto_logon as u64) << 3 | (cfg.use_hash as u64) << 4));
     let world = World::new(ctxrc.clone(), params.clone(), net);
-    let nla_res = if cfg.nla { Some(crate::scen::install_nla(&world, &cfg)) } else { None };
+    // a server is free not to echo NTLMSSP_NEGOTIATE_SEAL; the credentials must be sealed all the same
+    let no_seal = cfg.nla && ctxrc.borrow_mut().chance("challenge_without_seal", 1, 6);
+    let nla_res = if cfg.nla { Some(crate::scen::install_nla_custom(&world, &cfg, |n| { if no_seal { n.challenge_flags_clear = 0x20; } })) } else { None };
+    if no_seal { ctxrc.borrow_mut().probe("challenge_without_seal"); }
     world.server.borrow_mut().keep_frames = true;
     let mut s = match Session::connect(World { ctx: world.ctx.clone(), wire: world.wire.clone(), cfg: world.cfg.clone(), server: world.server.clone() }, &cfg) {
         Ok(s) => s,
